@@ -72,6 +72,11 @@ OBLIGATIONS.append(dict(name="tar_pax_sparse_map_n5", harness="harness/C07_pax.c
     functions=["pax_sparse_map (lib/tar/src/pax_header.c)", "parse_uint (lib/util/src/parse_int.c)", "free_sparse_list, clear_header (cleanup.c)"],
     bound="every NUL terminated map string of up to 5 bytes (all byte values), with or without a map from an earlier record"))
 
+OBLIGATIONS.append(dict(name="codec_wrapper_corrupt_input_gzip", harness="harness/C15_wrappers.c", sources=[], included_sources=["lib/xfrm/src/gzip.c"],
+    defines=dict(KIND=1, CORRUPT=1), unwind=8, termination=True, tiers=["quick", "thorough"], timeout=300, reach=["library_error", "done"],
+    functions=["process_data (lib/xfrm/src/gzip.c)"],
+    bound="one decompressing process_data call: input 0..4 bytes, output space 0..4 bytes, the library may report Z_DATA_ERROR / Z_NEED_DICT / Z_MEM_ERROR without progress at any call"))
+
 ASSUMPTIONS = ["ctype classification = C locale (stubs/vp_ctype.c)", "path lookup replaced by a symbolic graph (superset of all archives / pack files)"]
 OUTSIDE = ["zlib/xz/zstd/bzip2 on corrupt streams", "glob.c against a real directory"]
 META = dict(
